@@ -272,6 +272,13 @@ func TestVerifBoundedC06Differential(t *testing.T) {
 			if legal && len(prefix) == depth {
 				p.w.DeleteGroup()
 				fresh := verifC06Observe(NewBadgerWAL(db, uuid.NewV4()))
+				// the partition keeps the store object across unload/load: the deleted store itself must be a fresh one
+				if got := verifC06Observe(p.w); got != fresh {
+					failures++
+					if failures <= 10 {
+						t.Errorf("sequence [%s] then DeleteGroup: the deleted store object itself is not a fresh store\n fresh %s\n got   %s", desc, fresh, got)
+					}
+				}
 				if got := verifC06Observe(NewBadgerWAL(db, gid)); got != fresh {
 					failures++
 					if failures <= 10 {
@@ -300,5 +307,5 @@ func TestVerifBoundedC06Differential(t *testing.T) {
 		}
 	}
 	rec(nil)
-	fmt.Fprintf(os.Stdout, "VERIF-BOUNDED C06 sequences=%d compared_steps=%d distinct_reference_states=%d illegal_skipped=%d failures=%d bound=all legal call sequences of length<=%d over 14 operations (append 1-2, overwrite last 1-2, commit, install snapshot inside/beyond the log with 0-2 following entries, local snapshot at first/middle/last, reopen), one neighbour group, DeleteGroup after full-length sequences\n", sequences, steps, len(seen), skipped, failures, depth)
+	fmt.Fprintf(os.Stdout, "VERIF-BOUNDED C06 sequences=%d compared_steps=%d distinct_reference_states=%d illegal_skipped=%d failures=%d bound=all legal call sequences of length<=%d over 14 operations (append 1-2, overwrite last 1-2, commit, install snapshot inside/beyond the log with 0-2 following entries, local snapshot at first/middle/last, reopen), one neighbour group, DeleteGroup after full-length sequences (the deleted store object and a new store for the same id both compared with a fresh one)\n", sequences, steps, len(seen), skipped, failures, depth)
 }
